@@ -9,6 +9,7 @@ guaranteed-broken and which the reader therefore *must* reject.
 """
 import copy
 import signal
+import threading
 import sys
 
 from sim import rng, runner, channel
@@ -40,6 +41,37 @@ class Clock(object):
 
 
 CLOCK = Clock()
+
+
+class Reader(object):
+    """A persistent reader thread: runs one job at a time, handed over and awaited by the main thread."""
+
+    def __init__(self):
+        self.t = None
+        self.job = None
+        self.go = threading.Event()
+        self.done = threading.Event()
+
+    def _loop(self):
+        while True:
+            self.go.wait()
+            self.go.clear()
+            try:
+                self.job()
+            finally:
+                self.done.set()
+
+    def run(self, job, timeout):
+        if self.t is None:
+            self.t = threading.Thread(target=self._loop, daemon=True)
+            self.t.start()
+        self.job = job
+        self.done.clear()
+        self.go.set()
+        return self.done.wait(timeout)
+
+
+READERS = [Reader(), Reader()]
 
 
 class HangAlarm(BaseException):
@@ -190,6 +222,16 @@ class C09(BaseCheck):
                     # names illegal escapes, not raw control characters (and pyparsing expands a raw tab to blanks
                     # before hszinc's grammar sees it, so hszinc accepts that one)
                     out.append((text[:at] + ch + text[at:], 'ctrl-in-' + k, None))
+        # a date / time of day that does not exist: well-formed for the grammar, refused by the conversion that
+        # runs inside the parse (a different exit from the parser than a grammar mismatch)
+        if by.get('date'):
+            a, b = r.choice(by['date'])
+            bad = r.choice(['2021-02-30', '2021-13-01', '2021-00-10', '2021-04-31'])
+            out.append((text[:a] + bad + text[b:], 'impossible-date', 'date at %d replaced by %s, which does not exist' % (a, bad)))
+        if by.get('time'):
+            a, b = r.choice(by['time'])
+            bad = r.choice(['25:00:00', '24:00:00', '12:60:00', '12:00:61'])
+            out.append((text[:a] + bad + text[b:], 'impossible-time', 'time at %d replaced by %s, which does not exist' % (a, bad)))
         opens = by.get('lopen', []) + by.get('dopen', [])
         if opens:
             a, b = r.choice(opens)
@@ -291,6 +333,7 @@ class C09(BaseCheck):
         case['pint'] = cfg.random() < 0.15
         case['mode_as'] = cfg.choice(['const', 'const', 'zinc', 'ZINC', 'text/zinc'])     # every spelling of the mode the API accepts
         case['warn_error'] = cfg.random() < 0.06
+        case['reader_threads'] = rng.stream(run_seed, 'readers').random() < 0.2
         if k.random() < 0.08:
             case['stdout_fault'] = {'kind': k.choice(['epipe', 'enospc', 'closed', 'ascii']), 'at': k.randrange(1, 4)}
         deliveries = []
@@ -403,23 +446,38 @@ class C09(BaseCheck):
                 arg = text      # not representable in that charset: delivered as text
         res = {'outcome': None}
         mode = hs.MODE_ZINC if case.get('mode_as', 'const') == 'const' else case['mode_as']
+        def work():
+            try:
+                if case['class'] == 'scalar':
+                    v = hs.parse_scalar(arg, mode=mode, version=case['ver'], **kw)
+                    res['outcome'] = 'value'
+                    res['repr'] = type(v).__name__
+                else:
+                    g = hs.parse(arg, mode=mode, single=case.get('single', True), **kw)
+                    res['outcome'] = 'grid'
+                    res['repr'] = 'None' if g is None else (len(g) if isinstance(g, list) and not isinstance(g, hs.Grid) else 1)
+            except ClockExpired:
+                res['outcome'] = 'clock'
+            except HangAlarm:
+                res['outcome'] = 'hang'
+            except BaseException as e:
+                res['outcome'] = 'raise'
+                res['exc'] = e
+
         signal.setitimer(signal.ITIMER_REAL, 60.0)
         try:
-            if case['class'] == 'scalar':
-                v = hs.parse_scalar(arg, mode=mode, version=case['ver'], **kw)
-                res['outcome'] = 'value'
-                res['repr'] = type(v).__name__
+            if case.get('reader_threads'):
+                # the deliveries of one run are read by two threads of the receiving process in turn (never at the same
+                # time: the hand-over is the only scheduling, so the run stays a function of the seed); what one reader's
+                # failed parse leaves behind must not stop the other
+                self._delivery_no = getattr(self, '_delivery_no', 0) + 1
+                if not READERS[self._delivery_no % 2].run(work, 25.0):
+                    res['outcome'] = 'hang'
+                    CLOCK.hung = True
             else:
-                g = hs.parse(arg, mode=mode, single=case.get('single', True), **kw)
-                res['outcome'] = 'grid'
-                res['repr'] = 'None' if g is None else (len(g) if isinstance(g, list) and not isinstance(g, hs.Grid) else 1)
-        except ClockExpired:
-            res['outcome'] = 'clock'
+                work()
         except HangAlarm:
             res['outcome'] = 'hang'
-        except BaseException as e:
-            res['outcome'] = 'raise'
-            res['exc'] = e
         finally:
             signal.setitimer(signal.ITIMER_REAL, 0)
         res['clock'] = CLOCK.n
@@ -470,6 +528,7 @@ class C09(BaseCheck):
 
     def execute(self, case):
         import warnings
+        self._delivery_no = 0
         if case.get('pint'):
             self.hszinc.use_pint(True)       # process-wide flag; the child is discarded after the run
         with warnings.catch_warnings(record=True) as w:
@@ -485,6 +544,8 @@ class C09(BaseCheck):
                 res['stats']['config.pint_mode_runs'] = 1
             if case.get('warn_error'):
                 res['stats']['config.warnings_as_errors_runs'] = 1
+            if case.get('reader_threads'):
+                res['stats']['config.two_reader_threads_runs'] = 1
             return res
 
     def _execute(self, case):
